@@ -5,7 +5,7 @@ observed output, and answers one line per record:
   `ok <flags…>` | `DISAGREE <kind> model=<…> impl=<…>` | `ORACLE-FAIL <property> <detail>` |
   `KNOWN <property> <signature> …` | `BADREC <kind>`.
 -/
-import Driver.PG
+import Driver.Cross
 open Pm Drv
 
 def handle (line : String) : String :=
@@ -25,6 +25,9 @@ def handle (line : String) : String :=
       | "TRH" => some handleTRH
       | "TRT" => some handleTRT
       | "TP" => some handleTP
+      | "HSUM" => some (handleCross "HSUM")
+      | "SSUM" => some (handleCross "SSUM")
+      | "EXT" => some (handleCross "EXT")
       | "PGL" => some handlePGL
       | "PGC" => some handlePGC
       | "PGW" => some handlePGW
